@@ -243,21 +243,20 @@ pub fn single<S: Src>(s: &mut S) {
 }
 
 /// Feedback member (PLI / SLI) and a PacketBuilder-wrapped member.
-pub fn fb_wrapped<S: Src>(s: &mut S) {
+pub fn fb_wrapped<S: Src, const WRAP_FIRST: bool>(s: &mut S) {
     let fbc = FbCfg::draw(s, false);
     s.assume(fbc.padding <= 8);
     let sli = SliCfg::<1>::draw(s).builder();
     let b = draw_bye(s);
     let mk = || PayloadFeedback::builder(&sli).sender_ssrc(fbc.sender).media_ssrc(fbc.media).padding(fbc.padding);
     let m = [alone(&mk(), fbc.padding), alone(&b.builder(), b.padding)];
-    let wrap_first = s.bool();
-    let c = if wrap_first {
-        Compound::builder().add_packet(PacketBuilder::from(mk())).add_packet(PacketBuilder::from(b.builder()))
+    let c = if WRAP_FIRST {
+        Compound::builder().add_packet(PacketBuilder::from(mk())).add_packet(b.builder())
     } else {
         Compound::builder().add_packet(mk()).add_packet(PacketBuilder::from(b.builder()))
     };
     check::<S, 2, 0>(s, &c, &m, false);
-    vcover!(wrap_first && fbc.padding > 0, "padded wrapped feedback in a non-last position");
+    vcover!(fbc.padding > 0, "padded feedback in a non-last position");
     forget(c);
 }
 
@@ -332,7 +331,8 @@ common::register! {
     q_bye_app = bye_app::<_, false, 0> => 4,
     q_unknown_rr = unknown_rr::<_, false> => 4,
     q_app_sr_unknown = app_sr_unknown => 5,
-    q_fb_wrapped = fb_wrapped => 4,
+    q_fb_wrapped = fb_wrapped::<_, false> => 4,
+    t_fb_wrapped_first = fb_wrapped::<_, true> => 4,
     t_sdes_last = sdes_member::<_, true> => 4,
     q_sdes_first = sdes_member::<_, false> => 4,
     q_nested_foreign = nested_foreign => 4,
